@@ -239,7 +239,7 @@ func main() -> int {
 -/
 
 def exDecls : List Decl :=
-  [.enum 1 "E" [(1, "A"), (1, "B")], .record 2 "R" [⟨2, "x", .dflt, .int⟩]]
+  [.enum 1 "E" [(1, "A"), (1, "B")], .record 2 "R" [⟨2, "x", .dflt, .int, []⟩]]
 
 def exOne : Expr := .litInt 1
 def exSeq1 (e : Expr) : Expr := .seq 0 (.cons (.expr e) .nil)
@@ -248,14 +248,14 @@ def exFrames : List Frame :=
   [ .seqFunc 20 (.cons (.bind 6 false "a" (.array 6 (.cons exOne (.cons exOne .nil)) .dflt .int))
         (.cons (.bind 7 false "e" (.enumVal 7 (.id 7 "E") "A"))
         (.cons (.bind 7 false "r" (.call 7 (.id 7 "R") (.cons exOne .nil))) .nil)))
-      .nil (.body 8 "g" [⟨8, "p", .dflt, .int⟩] .dflt .int
+      .nil (.body 8 "g" [⟨8, "p", .dflt, .int, []⟩] .dflt .int
               (.cons (.mk 18 "overflow" (exSeq1 (.litInt 18))) .nil))
       .nil (.cons (.expr (.call 19 (.id 19 "g") (.cons exOne .nil))) .nil),
     .seqExpr 10 .nil .nil,
     .matchArm 10 (.id 10 "e") .nil (.item 11 "E" "A") (.cons (.item 15 "E" "B" exOne) .nil),
     .callF 11 (.cons exOne .nil),
     .sup 11,
-    .funcLit (.body 11 "" [⟨11, "q", .dflt, .int⟩] .dflt .int .nil),
+    .funcLit (.body 11 "" [⟨11, "q", .dflt, .int, []⟩] .dflt .int .nil),
     .seqExpr 13 .nil .nil,
     .derefA 13 (.cons (.litInt 13) .nil),
     .sup 13,
@@ -339,7 +339,7 @@ example : check ((FuncCtx.top exDecls .nil .nil).plug
 -- the hole can also be in a catch clause of a top-level function
 def exPcatch : ProgCtx :=
   { decls := exDecls, fpre := .nil,
-    h := .exc 5 "main" [⟨5, "n", .dflt, .int⟩] .dflt .int (exSeq1 exOne) .nil 7 "division_by_zero" .nil,
+    h := .exc 5 "main" [⟨5, "n", .dflt, .int, []⟩] .dflt .int (exSeq1 exOne) .nil 7 "division_by_zero" .nil,
     fpost := .nil, frames := [.seqExpr 8 .nil (.cons (.expr exOne) .nil)] }
 example : check (exPcatch.plug (.ass 8 (.id 8 "n") exOne)) = .error ⟨8, .assignConst⟩ := rfl
 example : ∃ d, check (exP.plug (.while_ 13 (.litInt 13) exOne)) = .error d :=
@@ -372,9 +372,9 @@ example : ∃ t, (⟨.val .bool, .temp⟩ : Comb).ct = .val t ∧
 `k(g(int) -> string)` — rejected at the call (line 3) since 186dfd9 -/
 def exSecondOrder : Prog :=
   let fn (r : Ty) : Ty := .func (.cons .dflt .int .nil) .dflt r
-  ⟨[], .cons (.mk 1 "apply" [⟨1, "h", .dflt, .func (.cons .dflt (fn .int) .nil) .dflt .int⟩] .dflt .int
+  ⟨[], .cons (.mk 1 "apply" [⟨1, "h", .dflt, .func (.cons .dflt (fn .int) .nil) .dflt .int, []⟩] .dflt .int
           (.seq 1 (.cons (.expr (.litInt 1)) .nil)) .nil)
-       (.cons (.mk 2 "k" [⟨2, "g", .dflt, fn .string⟩] .dflt .int
+       (.cons (.mk 2 "k" [⟨2, "g", .dflt, fn .string, []⟩] .dflt .int
           (.seq 2 (.cons (.expr (.litInt 2)) .nil)) .nil)
        (.cons (.mk 3 "main" [] .dflt .int
           (.seq 3 (.cons (.expr (.call 3 (.id 3 "apply") (.cons (.id 3 "k") .nil))) .nil)) .nil) .nil))⟩
@@ -444,6 +444,22 @@ theorem rejects_branch_functions (P : ProgCtx) (Γ : Env) (ln : Ln) (c t e : Exp
     check (P.plug (.cond ln c t e)) = .error ⟨ln, .branchFuncs⟩ := by
   apply rejects_branch_mismatch P Γ ln c t e cc ct ce _ hreach hc ht he hb
   rw [h1, h2]; exact combCmp_func ps1 ps2 c1 c2 r1 r2 hdiff
+
+/-- the branches of `if let (En::it = e) t else f` (item guard) must agree like those of `?:` -/
+theorem rejects_iflet_branches (P : ProgCtx) (Γ : Env) (ln gln : Ln) (en it : String) (e t f : Expr)
+    (ce ct cf : Comb) (r : Rule) (hreach : P.holeEnv = .ok Γ)
+    (he : tc Γ e = .ok ce) (hen : ce.ct = .val (.enum en)) (hg : guardItemPre Γ gln en it = .ok ())
+    (ht : tc Γ t = .ok ct) (hf : tc Γ f = .ok cf) (hcmp : combCmp ct.ct cf.ct = .error r) :
+    check (P.plug (.ifLet ln gln en it e t f)) = .error ⟨ln, r⟩ :=
+  P.plug_error Γ _ _ hreach (tc_iflet_branches Γ ln gln en it e t f ce ct cf r he hen hg ht hf hcmp)
+
+/-- … and its guard must name the enum of the tested value -/
+theorem rejects_iflet_other_enum (P : ProgCtx) (Γ : Env) (ln gln : Ln) (en en' it : String) (e t f : Expr)
+    (ce ct cf : Comb) (hreach : P.holeEnv = .ok Γ)
+    (he : tc Γ e = .ok ce) (hen : ce.ct = .val (.enum en')) (hg : guardItemPre Γ gln en it = .ok ())
+    (ht : tc Γ t = .ok ct) (hf : tc Γ f = .ok cf) (hne : en' ≠ en) :
+    check (P.plug (.ifLet ln gln en it e t f)) = .error ⟨ln, .matchGuardDiffers⟩ :=
+  P.plug_error Γ _ _ hreach (tc_iflet_other_enum Γ ln gln en en' it e t f ce ct cf he hen hg ht hf hne)
 
 /-- the arms of an exhaustive `match` are compared the same way, the first with each later one -/
 theorem rejects_match_arms_mismatch (P : ProgCtx) (Γ : Env) (ln : Ln) (s : Expr) (g : Guard)
@@ -575,6 +591,29 @@ theorem rejects_missing_enumerator (P : ProgCtx) (Γ : Env) (ln : Ln) (s : Expr)
   exact ⟨by rw [exhaustiveM_fst]; exact hex,
     P.plug_error Γ _ _ hreach (tc_match_missing Γ ln s g gs cs en arms hs hen hg hsame hex)⟩
 
+/-- a main unit without any function (declarations only, or nothing) is refused, at line 1
+(bad4904: `main_check_type` used to walk the NULL list) -/
+theorem rejects_empty_main_unit (ds : List Decl) (Γ : Env) (hd : globalEnv ds = .ok Γ) :
+    check ⟨ds, .nil⟩ = .error ⟨1, .emptyMainUnit⟩ := by
+  simp [check, hd, nonEmptyUnit]
+
+/-- a top-level function item without a name is refused at its line (0b116cb: the NULL name
+used to be hashed); `fpre` are the functions declared before it -/
+theorem rejects_nameless_function (ds : List Decl) (Γ Γ1 : Env) (fpre fpost : FuncList) (ss : List Sig)
+    (f : Func) (hd : globalEnv ds = .ok Γ) (hpre : declFuncs Γ fpre = .ok (Γ1, ss)) (hn : f.name = "") :
+    check ⟨ds, fpre.app (.cons f fpost)⟩ = .error ⟨f.ln, .funcNoName⟩ := by
+  rw [check_eq]
+  simp [hd, nonEmptyUnit_app, declFuncs_app_noname Γ Γ1 fpre ss f fpost hpre hn]
+
+/-- … and so is one that is an item of a block, in any context (a function LITERAL,
+`let func (…) -> …`, has no name and needs none) -/
+theorem rejects_nameless_function_item (P : ProgCtx) (Γ Γ1 Γ2 : Env) (ln : Ln) (pre post : SeqList)
+    (fpre fpost : FuncList) (ss : List Sig) (f : Func) (hreach : P.holeEnv = .ok Γ)
+    (hpre : seqEnv Γ.push pre = .ok Γ1) (hf : declFuncs Γ1 fpre = .ok (Γ2, ss)) (hn : f.name = "") :
+    check (P.plug (.seq ln (pre.app (.cons (.funcs (fpre.app (.cons f fpost))) post))))
+      = .error ⟨f.ln, .funcNoName⟩ :=
+  P.plug_error Γ _ _ hreach (tc_seq_noname Γ Γ1 Γ2 ln pre post fpre fpost ss f hpre hf hn)
+
 /-! ### known acceptances of the tree (corpus/tc_known), visible as theorems: the model, which
 mirrors the code, ACCEPTS each of these programs that break a static rule -/
 
@@ -600,7 +639,7 @@ theorem const_lost_through_slice_forin_accepted_counterexample :
 /-- `let t = (1, 2) : (int, int); t |> f()` with `f(var a : int, var b : int)`: members of a
 `let` tuple reach `var` parameters (the tuple pipe compares with `const_cmp = false`) -/
 theorem const_tuple_members_to_var_params_accepted_counterexample :
-    check ⟨[], .cons (.mk 1 "f" [⟨1, "a", .var, .int⟩, ⟨1, "b", .var, .int⟩] .dflt .int
+    check ⟨[], .cons (.mk 1 "f" [⟨1, "a", .var, .int, []⟩, ⟨1, "b", .var, .int, []⟩] .dflt .int
         (.seq 1 (.cons (.expr (.ass 1 (.id 1 "a") (.litInt 1))) (.cons (.expr (.id 1 "a")) .nil))) .nil)
       (.cons (.mk 2 "main" [] .dflt .int (.seq 6
         (.cons (.bind 4 false "t" (.tuple 4 (.cons (.litInt 4) (.cons (.litInt 4) .nil))
@@ -617,6 +656,30 @@ theorem catch_clause_const_for_var_result_accepted_counterexample :
           (.seq 1 (.cons (.bind 1 false "a" (.array 1 (.cons (.litInt 1) .nil) .dflt .int))
                   (.cons (.expr (.id 1 "a")) .nil)))) .nil))
       (.cons (.mk 2 "main" [] .dflt .int (.seq 2 (.cons (.expr (.litInt 2)) .nil)) .nil) .nil)⟩ = .ok () := by rfl
+
+/-- `func f(r[a .. b] : range) -> int { a = 4; 0 }` — the bound names of a range parameter that
+is NOT `var` are assignable (`param_new_range_dim` makes them VAR; the assignment writes the
+caller's cell: docs/D3-findings/const-changed-through-range-bound-name.nev) -/
+theorem range_bound_name_assign_accepted_counterexample :
+    check ⟨[], .cons (.mk 1 "f" [⟨1, "r", .dflt, .range 1, [(1, "a"), (1, "b")]⟩] .dflt .int
+        (.seq 4 (.cons (.expr (.ass 3 (.id 3 "a") (.litInt 3))) (.cons (.expr (.litInt 4)) .nil))) .nil)
+      (.cons (.mk 6 "main" [] .dflt .int (.seq 9
+        (.cons (.bind 8 false "k" (.litInt 8))
+        (.cons (.expr (.call 9 (.id 9 "f") (.cons (.range 9 (.cons (.id 9 "k") (.cons (.litInt 9) .nil))) .nil))) .nil))) .nil) .nil)⟩
+      = .ok () := by rfl
+
+/-- the same for the bound names of a slice parameter `s[a .. b] : int` -/
+theorem slice_bound_name_assign_accepted_counterexample :
+    check ⟨[], .cons (.mk 1 "f" [⟨1, "s", .dflt, .slice 1 .dflt .int, [(1, "a"), (1, "b")]⟩] .dflt .int
+        (.seq 4 (.cons (.expr (.ass 3 (.id 3 "a") (.litInt 3))) (.cons (.expr (.id 4 "a")) .nil))) .nil) .nil⟩
+      = .ok () := by rfl
+
+/-- … whereas the parameter itself is a constant, and a bound name may not be declared twice -/
+example : check ⟨[], .cons (.mk 1 "f" [⟨1, "r", .dflt, .range 1, [(1, "a"), (1, "b")]⟩] .dflt .int
+      (.seq 4 (.cons (.expr (.ass 3 (.id 3 "r") (.range 3 (.cons (.litInt 3) (.cons (.litInt 3) .nil)))))
+              (.cons (.expr (.litInt 4)) .nil))) .nil) .nil⟩ = .error ⟨3, .assignConst⟩ := by rfl
+example : check ⟨[], .cons (.mk 1 "f" [⟨1, "r", .dflt, .range 1, [(1, "a"), (2, "a")]⟩] .dflt .int
+      (.seq 4 (.cons (.expr (.litInt 4)) .nil)) .nil) .nil⟩ = .error ⟨2, .redefined⟩ := by rfl
 
 /-- … while the same `let` array as the BODY's value is refused (so the rule exists) -/
 example :
@@ -661,6 +724,16 @@ example : check (exP.plug (.match_ 13 (.id 13 "e")
   rejects_match_arms_mismatch exP exΓ 13 _ _ _ ⟨.val (.enum "E"), .const⟩ "E"
     ⟨.val (.tuple (exTy2 .int .int)), .temp⟩ [⟨.val (.tuple (exTy2 .string .int)), .temp⟩] _
     exP_reaches rfl rfl rfl rfl rfl rfl
+-- if let (E::A = e) (1, 2) : (int, int) else ("s", 2) : (string, int)
+example : check (exP.plug (.ifLet 13 13 "E" "A" (.id 13 "e") (exTup exOne exOne .int .int)
+      (exTup (.litString 13) exOne .string .int))) = .error ⟨13, .condBranches⟩ :=
+  rejects_iflet_branches exP exΓ 13 13 "E" "A" _ _ _ ⟨.val (.enum "E"), .const⟩
+    ⟨.val (.tuple (exTy2 .int .int)), .temp⟩ ⟨.val (.tuple (exTy2 .string .int)), .temp⟩ _
+    exP_reaches rfl rfl rfl rfl rfl rfl
+example : check (exP.plug (.ifLet 13 13 "E" "A" (.id 13 "e") exOne exOne)) = .ok () := rfl
+-- the hole in the else branch of an if-let
+example : check (ProgCtx.plug { exP with frames := exFrames ++ [Frame.ifLetF 13 13 "E" "B" (.id 13 "e") exOne] } (.id 14 "nosuch"))
+    = .error ⟨14, .undefId⟩ := rfl
 -- (1, 2) : (int, int, int)
 example : check (exP.plug (.tuple 13 (.cons exOne (.cons exOne .nil))
       (.cons .dflt .int (.cons .dflt .int (.cons .dflt .int .nil))))) = .error ⟨13, .tupleForm⟩ :=
@@ -720,5 +793,45 @@ example : (exhaustiveM exΓ "E" (.cons (.item 14 "E" "A" exOne) .nil)
     check (exP.plug (.match_ 13 (.id 13 "e") (.cons (.item 14 "E" "A" exOne) .nil))) = .error ⟨13, .matchMissing⟩ :=
   rejects_missing_enumerator exP exΓ 13 _ _ _ ⟨.val (.enum "E"), .const⟩ "E" [⟨.val .int, .temp⟩] "B" _ _
     exP_reaches rfl rfl rfl rfl rfl (by decide) rfl
+
+-- `record P { x : int; }` alone; `func main() …` then `func () -> int { 0 }`; a nameless item in a block at the hole
+example : check ⟨exDecls, .nil⟩ = .error ⟨1, .emptyMainUnit⟩ :=
+  rejects_empty_main_unit exDecls (match globalEnv exDecls with | .ok Γ => Γ | .error _ => default) rfl
+example : check ⟨exDecls, FuncList.app (.cons (.mk 3 "main" [] .dflt .int (exSeq1 exOne) .nil) .nil)
+      (.cons (.mk 4 "" [] .dflt .int (exSeq1 exOne) .nil) .nil)⟩ = .error ⟨4, .funcNoName⟩ :=
+  rejects_nameless_function exDecls (match globalEnv exDecls with | .ok Γ => Γ | .error _ => default)
+    (match globalEnv exDecls with
+      | .ok Γ => (match declFuncs Γ (.cons (.mk 3 "main" [] .dflt .int (exSeq1 exOne) .nil) .nil) with
+                  | .ok q => q.1 | .error _ => default)
+      | .error _ => default)
+    _ _ [⟨[], .const, .int⟩] (.mk 4 "" [] .dflt .int (exSeq1 exOne) .nil) rfl rfl rfl
+example : check (exP.plug (.seq 13 (SeqList.app .nil (.cons (.funcs (FuncList.app .nil
+      (.cons (.mk 14 "" [] .dflt .int (exSeq1 exOne) .nil) .nil))) (.cons (.expr exOne) .nil)))))
+    = .error ⟨14, .funcNoName⟩ :=
+  rejects_nameless_function_item exP exΓ exΓ.push exΓ.push 13 .nil _ .nil .nil [] _ exP_reaches rfl rfl rfl
+-- … while the literal `let func () -> int { 1 }` is fine
+example : check (exP.plug (.call 13 (.funcLit (.mk 13 "" [] .dflt .int (exSeq1 exOne) .nil)) .nil)) = .ok () := rfl
+
+/-! ### the hole may sit INSIDE the new constructs (39 frame kinds): a member of a tuple that is
+the upper bound of a slice of the piped value of a pipe, the argument of that pipe a row element
+of a literal whose projection …  `context_error_propagates` at that depth -/
+def exP2 : ProgCtx :=
+  { exP with frames := exFrames ++
+      [ .pipeA 13 (.id 13 "p") (.id 13 "g") .nil .nil,         -- p |> g( HOLE' )   (arity wrong: irrelevant, the hole is first)
+        .projE 13 13 0,                                        -- HOLE''[0]
+        .tupleE 13 (.cons exOne .nil) .nil (.cons .dflt .int (.cons .dflt .int .nil)),  -- (1, HOLE''') : (int, int)
+        .sliceT 13 (.id 13 "a") [] exOne .nil,                 -- a[1 .. HOLE'''']
+        .pipeL 13 (.id 13 "g") .nil,                           -- HOLE |> g()
+        .derefA 13 (.cons exOne (.cons exOne .nil)),           -- HOLE[1, 1]
+        .arrayE 13 .nil .nil .dflt .int,                       -- [ HOLE ] : int
+        .subE (.cons exOne .nil) .nil,                         -- [ 1, HOLE ]
+        .rangeF 13 [(exOne, exOne)] exOne .nil ] }              -- [ 1 .. 1, HOLE .. 1 ]
+
+def exΓ2 : Env := match exP2.holeEnv with | .ok Γ => Γ | .error _ => default
+theorem exP2_reaches : exP2.holeEnv = .ok exΓ2 := rfl
+example : check (exP2.plug (.id 14 "nosuch")) = .error ⟨14, .undefId⟩ :=
+  rejects_undefined_name exP2 exΓ2 14 "nosuch" exP2_reaches rfl
+example : check (exP2.plug (.ass 14 (.id 14 "q") exOne)) = .error ⟨14, .assignConst⟩ :=
+  context_error_propagates exP2 exΓ2 _ _ exP2_reaches rfl
 
 end Never.C06
